@@ -67,7 +67,11 @@ def build_and_audit(pid, thorough=False):
         for m in res.missing_anchors:
             res.ok = False
             res.problems.append(f"translator anchor missing: {m}")
-        p = subprocess.run(["lake", "build"], cwd=LEAN, capture_output=True, text=True)
+        # only what this property depends on is built: its property module (with the helper modules and
+        # regenerated obligations it imports) and the driver; an obligation of another property that no
+        # longer checks does not contaminate this one
+        target = f"AmrK.Properties.{pid}"
+        p = subprocess.run(["lake", "build", target, "amrk-driver"], cwd=LEAN, capture_output=True, text=True)
         res.build_log = (p.stdout + p.stderr)[-6000:]
         if p.returncode != 0:
             res.ok = False
@@ -79,7 +83,7 @@ def build_and_audit(pid, thorough=False):
             res.problems.append("forbidden construct in Lean sources: " + "; ".join(hits[:5]))
         thms = theorems_for(pid)
         if p.returncode == 0 and thms:
-            src = "import AmrK\n" + "\n".join(f"#print axioms {t}" for t in thms) + "\n"
+            src = f"import {target}\n" + "\n".join(f"#print axioms {t}" for t in thms) + "\n"
             fd, apath = tempfile.mkstemp(prefix=".audit_", suffix=".lean", dir=LEAN)
             with os.fdopen(fd, "w") as f:
                 f.write(src)
@@ -107,12 +111,12 @@ def build_and_audit(pid, thorough=False):
             tmp = tempfile.mkdtemp(prefix="amrk-clean-")
             try:
                 subprocess.run(["rsync", "-a", "--exclude", ".lake", "--exclude", ".build.lock", LEAN + "/", tmp + "/"], check=True)
-                c = subprocess.run(["lake", "build", "AmrK"], cwd=tmp, capture_output=True, text=True)
+                c = subprocess.run(["lake", "build", target], cwd=tmp, capture_output=True, text=True)
                 if c.returncode != 0:
                     res.ok = False
                     res.problems.append("clean rebuild failed: " + (c.stdout + c.stderr)[-400:])
                 else:
-                    mods = [m for m in module_list() if m != "AmrK"]
+                    mods = closure(target)
                     k = subprocess.run(["lake", "env", "leanchecker"] + mods, cwd=tmp, capture_output=True, text=True)
                     res.leanchecker = (k.returncode == 0)
                     if k.returncode != 0:
@@ -125,6 +129,23 @@ def build_and_audit(pid, thorough=False):
         fcntl.flock(lock, fcntl.LOCK_UN)
         lock.close()
     return res
+
+
+def closure(mod):
+    """the AmrK modules a module imports, transitively (itself included)"""
+    seen, todo = [], [mod]
+    while todo:
+        m = todo.pop()
+        if m in seen:
+            continue
+        seen.append(m)
+        path = os.path.join(LEAN, *m.split(".")) + ".lean"
+        if os.path.exists(path):
+            for line in open(path):
+                mm = re.match(r"^import (AmrK(\.\w+)+)\s*$", line)
+                if mm:
+                    todo.append(mm.group(1))
+    return sorted(seen)
 
 
 def module_list():
